@@ -18,6 +18,10 @@ CFG = dict(
         seq("asan_portable", "asan", SRC, Q_ASAN, T_ASAN, params={0: 0, 1: 1, 2: 200}, env=PORT),
         seq("rel_vector", "rel", SRC, Q_REL, T_REL, params={0: 1, 1: 1, 2: 200}, env=VEC),
         seq("rel_portable", "rel", SRC, Q_REL, T_REL, params={0: 0, 1: 1, 2: 200}, env=PORT),
+        # several threads using the codecs at once, each on its own buffers (p0 = rounds per thread)
+        seq("mt_tsan_vector", "tsan", "c05_mt.c", 64, 6400, params={0: 300}, env=VEC, wrap=True, leak=False),
+        seq("mt_tsan_portable", "tsan", "c05_mt.c", 64, 6400, params={0: 300}, env=PORT, wrap=True, leak=False),
+        seq("mt_rel_vector", "rel", "c05_mt.c", 64, 6400, params={0: 2000}, env=VEC, leak=False),
     ],
     rule=("case = one input (derived from (seed, case index) only, identical in all four stages) pushed through a family of "
           "codec calls. Case indices below 635 are the exhaustive sweeps: every byte value at each of the last 4 positions after "
@@ -35,7 +39,10 @@ CFG = dict(
           "mechanisms_observed); distinct = distinct FNV fingerprints of (kind, sizes, mutations, input digest). Each stage runs "
           "with AWS_COMMON_AVX2 fixed and verifies its CPU path (cpuid, dispatch predicate, behavioural probe); "
           "coverage.cross_path compares per-64-case digests of inputs and of (verdict, length, bytes) between the two paths; "
-          "coverage.python_rechecked_* is the Python stdlib second opinion on a recorded sample."),
+          "coverage.python_rechecked_* is the Python stdlib second opinion on a recorded sample. mt_* stages: case = 2..8 threads, "
+          "each with private PRNG, input and output buffers, doing 300 (TSan) / 2000 (-O2) rounds of base64 / hex encode -> "
+          "reference -> decode -> input, malformed-text refusal and UTF-8 validation with a decoder of its own, concurrently; "
+          "every result must equal the single-threaded reference (no shared scratch state), ThreadSanitizer from the build."),
     assumptions=["host CPU supports AVX2 (otherwise the run is inconclusive, never a pass)",
                  "AWS_COMMON_AVX2 is honoured by aws_common_private_has_avx2 (verified per process by a behavioural probe)",
                  "harness allocator never fails (library aborts on OOM)",
@@ -50,6 +57,7 @@ CFG = dict(
         "b64_decode_reject_pad_bits": 100, "b64_decode_reject_pad_position": 100, "b64_decode_reject_alphabet": 100,
         "b64_encode_appended_at_len": 100, "short_buffer_refused_nothing_written": 100, "hex_decode_odd_length": 100,
         "utf8_split_inside_codepoint": 100, "b64_input_4090_4100": 40,
+        "mt_codec_calls_concurrent": 100000, "mt_four_or_more_threads": 30,
     }},
     post=c05_codecs.post,
 )
